@@ -32,7 +32,7 @@ shrink_steps = common.rule_case_steps
 
 def generate(run_seed, tier):
     rng = stream(run_seed, "gen")
-    case = G.gen_rule_case(rng, rules=RULES, max_c=6)
+    case = G.gen_rule_case(rng, rules=RULES, max_c=6, tie_bias=0.3)
     case["policies"] = common.gen_policies(rng, run_seed)
     return case
 
